@@ -433,6 +433,12 @@ func ISODateTime(value any) bool {
 	if !ok {
 		return false
 	}
+	// time.Parse alone is lenient (one-digit hours, a comma before the fraction,
+	// offsets of 24:00 or xx:60); the exported pattern alone lets the seconds be
+	// omitted. A date-time is valid when both agree.
+	if !regex.DefaultDatetime.MatchString(str) {
+		return false
+	}
 	_, err := time.Parse(time.RFC3339, str)
 	return err == nil
 }
